@@ -100,6 +100,19 @@ def run(rep: common.Report, tier: str, seed: int, replay=None) -> int:
                     return d
                 expect_rejected(rep, "unbalanced time-dependent currents (all times)", f"dev{di} rel={rel}",
                                 lambda out, curf=curf: solve(dev, out, terminal_currents=curf), td, f"a{n}"); n += 1
+            # with thermalisation (skip_time) the currents are used at times in [0, skip_time] and again in [0, solve_time]:
+            # an imbalance on a WIDE part of either range (not a narrow window) must be rejected
+            for what, skip, window in (("after solve_time, during a longer thermalisation", 0.05, (0.012, 1e9)),
+                                       ("before skip_time only", 0.004, (-1.0, 0.0039)),
+                                       ("first half of a short thermalisation", 0.02, (-1.0, 0.008))):
+                def curs(t, window=window):
+                    bad = 0.5 if window[0] < t < window[1] else 0.0
+                    d = {nm: 1.0 for nm in names[:-1]}
+                    d[names[-1]] = -(len(names) - 1) * 1.0 + bad
+                    return d
+                expect_rejected(rep, "unbalanced time-dependent currents (wide window, with thermalisation)", f"dev{di} {what}",
+                                lambda out, curs=curs, skip=skip: solve(dev, out, opt_over={"skip_time": skip}, terminal_currents=curs),
+                                td, f"a{n}"); n += 1
             # unbalanced only on a narrow time window: random sampling misses it (known finding)
             def curw(t):
                 bad = 1.0 if 0.0049 < t < 0.00490001 else 0.0
